@@ -1,30 +1,1 @@
-import Dalek.Model.Contracts
-import Dalek.IR.Tactics
-/-! GENERATED by tools/GenNorm.lean from the current /repo sources; do not edit. -/
-set_option maxRecDepth 100000
-set_option maxHeartbeats 4000000
-namespace Dalek.Gen.Norm.Clamp
-open Dalek.IR
-
-def clamp_integer_nprog : NProg :=
-  ⟨32,
-   [(.band (.v 0) (.c 248)),
-    (.mod2 (.v 31) 7),
-    (.bor (.v 33) (.c 64))],
-   [32, 1, 2, 3, 4, 5, 6, 7, 8, 9, 10, 11, 12, 13, 14, 15, 16, 17, 18, 19, 20, 21, 22, 23, 24, 25, 26, 27, 28, 29, 30, 34]⟩
-
-def clamp_integer_post : List Itv := [⟨0, 248, 0⟩, ⟨0, 255, 0⟩, ⟨0, 255, 0⟩, ⟨0, 255, 0⟩, ⟨0, 255, 0⟩, ⟨0, 255, 0⟩, ⟨0, 255, 0⟩, ⟨0, 255, 0⟩, ⟨0, 255, 0⟩, ⟨0, 255, 0⟩, ⟨0, 255, 0⟩, ⟨0, 255, 0⟩, ⟨0, 255, 0⟩, ⟨0, 255, 0⟩, ⟨0, 255, 0⟩, ⟨0, 255, 0⟩, ⟨0, 255, 0⟩, ⟨0, 255, 0⟩, ⟨0, 255, 0⟩, ⟨0, 255, 0⟩, ⟨0, 255, 0⟩, ⟨0, 255, 0⟩, ⟨0, 255, 0⟩, ⟨0, 255, 0⟩, ⟨0, 255, 0⟩, ⟨0, 255, 0⟩, ⟨0, 255, 0⟩, ⟨0, 255, 0⟩, ⟨0, 255, 0⟩, ⟨0, 255, 0⟩, ⟨0, 255, 0⟩, ⟨0, 127, 0⟩]
-
-theorem clamp_integer_norm_ok : Prog.norm Dalek.Gen.Clamp.clamp_integer Dalek.Model.Contracts.Clamp.pre_clamp_integer = some (clamp_integer_nprog, clamp_integer_post) := by
-  decide +kernel
-
-def clamp_integer_fn (x0 x1 x2 x3 x4 x5 x6 x7 x8 x9 x10 x11 x12 x13 x14 x15 x16 x17 x18 x19 x20 x21 x22 x23 x24 x25 x26 x27 x28 x29 x30 x31 : Int) : List Int :=
-  let x32 := ((((x0).toNat &&& (248).toNat : Nat) : Int))
-  let x33 := (x31 % 2 ^ 7)
-  let x34 := ((((x33).toNat ||| (64).toNat : Nat) : Int))
-  [x32, x1, x2, x3, x4, x5, x6, x7, x8, x9, x10, x11, x12, x13, x14, x15, x16, x17, x18, x19, x20, x21, x22, x23, x24, x25, x26, x27, x28, x29, x30, x34]
-
-theorem clamp_integer_fn_ok (x0 x1 x2 x3 x4 x5 x6 x7 x8 x9 x10 x11 x12 x13 x14 x15 x16 x17 x18 x19 x20 x21 x22 x23 x24 x25 x26 x27 x28 x29 x30 x31 : Int) : NProg.evalZ clamp_integer_nprog [x0, x1, x2, x3, x4, x5, x6, x7, x8, x9, x10, x11, x12, x13, x14, x15, x16, x17, x18, x19, x20, x21, x22, x23, x24, x25, x26, x27, x28, x29, x30, x31] = clamp_integer_fn x0 x1 x2 x3 x4 x5 x6 x7 x8 x9 x10 x11 x12 x13 x14 x15 x16 x17 x18 x19 x20 x21 x22 x23 x24 x25 x26 x27 x28 x29 x30 x31 := by
-  kernel_rfl
-
-end Dalek.Gen.Norm.Clamp
+import Dalek.Gen.Norm.Clamp.clamp_integer
